@@ -196,7 +196,18 @@ func runCors(raw Sx) (Sx, Sx) {
 			c2.Dispatch(rec3, qq.HTTP())
 			probeStatus = rec3.Code
 		}
-		obs = append(obs, L(acl, B(len(pr1.invoked) > 0), B(twin), probeStatus))
+		// the same request alone, on a fresh container with a fresh filter value (C19: the answer must not depend on
+		// what the filter served before)
+		pr3 := &probe{}
+		c3, _, _ := buildContainer(t, pr3)
+		cors3 := corsFromSx(cfgSx)
+		cors3.Container = c3
+		c3.Filter(cors3.Filter)
+		rec4 := httptest.NewRecorder()
+		c3.Dispatch(rec4, q.HTTP())
+		freshEq := rec1.Code == rec4.Code && rec1.Body.String() == rec4.Body.String() && len(pr1.invoked) == len(pr3.invoked) &&
+			SxString(headerSx(rec1.Header(), all)) == SxString(headerSx(rec4.Header(), all))
+		obs = append(obs, L(acl, B(len(pr1.invoked) > 0), B(twin), probeStatus, B(freshEq)))
 		o.Lower(q.Get("Origin"))
 		for _, h := range strings.Split(q.Get("Access-Control-Request-Headers"), ",") {
 			o.Lower(strings.Trim(h, " "))
